@@ -243,7 +243,7 @@ theorem sim_merge {cfg : Cfg} {m : Mem} {σ : Spec} (h : Sim cfg m σ) (g : GArg
   · intro t k
     simp only [mem_graphEff_qs, Spec.merge, h.has]
   · intro k
-    simp only [mem_graphEff_allc h.wf, Spec.merge, h.known]
+    simp only [mem_graphEff_allc, Spec.merge, h.known]
     constructor
     · rintro ((e | e) | e)
       · exact Or.inl (Or.inl e)
